@@ -310,6 +310,20 @@ def run_case(case, ctx):
     ctx.observe("atom_indices", case["ai"])
     nh = 1 + max(h for h, _, _ in case["ops"])
     ctx.observe("handles", nh)
+    fresh = None
+    if nh > 1 and case["i"] % 2 == 0 and fmt not in ("dtr-clickme", "stk"):  # (those two name files that point at other files)
+        # two handles on a file this process has never opened before (a private copy under a new name): nothing a reader may
+        # have learnt about the file in an earlier complete read is available yet, both handles discover it while interleaved
+        fresh = os.path.join(_TMP, "fresh-%d-%s" % (case["i"], os.path.basename(path)))
+        try:
+            if os.path.isdir(path):
+                shutil.copytree(path, fresh)
+            else:
+                shutil.copyfile(path, fresh)
+            path = fresh
+            ctx.observe("two_handles_on", "a file never read before in this process")
+        except Exception:
+            fresh = None
     handles = [_open(fmt, path, ext, na) for _ in range(nh)]
     ref_fields = _REF[fmt, case.get("n", N_FRAMES)]
     pos = [0] * nh
@@ -475,3 +489,5 @@ def run_case(case, ctx):
                 fh.close()
             except Exception:
                 pass
+        if fresh is not None:
+            shutil.rmtree(fresh, ignore_errors=True) if os.path.isdir(fresh) else (os.path.exists(fresh) and os.remove(fresh))
